@@ -68,6 +68,9 @@ func (s *St) clone() *St {
 	return n
 }
 
+// chanClosedField: which channels have been closed (set by close(ch), read by chanClosed(ch) in contracts).
+var chanClosedField = &FieldInfo{Key: "$chan.closed", Sort: SBool, Ghost: true}
+
 func (s *St) field(f *FieldInfo) *Term {
 	if t, ok := s.heap[f.Key]; ok {
 		return t
